@@ -17,21 +17,24 @@
    exactly what the account derives, each under its true key.  [c05_views_sound]: for EVERY account of U (member or
    not) the view never fails, stores only true keys of existing generations, and only generations the account derives.
 
-   NOT proved: [forall h, honest_run .. h = true -> spec_C05 .. (model_steps .. h) = true].  As stated it is FALSE
-   ([c05_model_satisfies_spec_refuted]): spec_C05 judges "allowed generations" at RECORD boundaries (it sees
-   permissions only after each record), the theorems at CONTENT boundaries; an accepted record that admits an account
-   and removes it again (AccountsAdd; AccountRemove with rotation) delivers the then-current key to an account that
-   holds no permission at any record boundary.  The model is right (and so is C05: the account gets no key introduced
-   after its removal); the predicate is stricter than the property on such records, which the client builders cannot
-   produce.  What a repaired statement needs (not done): either the side condition "every identity admitted by a
-   content of an accepted record holds a permission at the end of that record" or [spec_step] adding [admits] of the
-   record's contents to the allowed map; plus invariants not yet in [KInv]: secrecy for invite principals ([PI k]),
-   "a live open invite leads to the current key", general completeness of [derives] for non-members, and the
-   [rot_exact] clause over observed member lists.  Tree part: [c05_tree_model_satisfies_spec]; one computed instance:
-   [c05_model_satisfies_spec_instance]. *)
+   NOT proved ([..._partial] below states what is): [forall h, honest_run .. h = true -> spec_C05 .. (model_steps .. h) = true].
+   The predicate was REPAIRED for it: as first written ([spec_C05_legacy]) it judged "allowed generations" at RECORD
+   boundaries only (it sees permissions only after each record) while the theorems speak about CONTENT boundaries; an
+   accepted record that admits an account and removes it again (AccountsAdd; AccountRemove with rotation) delivers the
+   then-current key to an account that holds no permission at any record boundary, and the legacy predicate answered
+   false on the model's own output although nothing in C05 is violated — a check must not demand more than the property
+   ([c05_model_satisfies_spec_legacy_refuted]).  [spec_step] now also allows every identity admitted by a content of
+   the accepted record ([admits]) the generations that exist AT THAT CONTENT ([admit_allow]: the generations before the
+   record, plus the record's own generation once its rotation content has been passed — so the account of the example
+   may keep generation 1 and may NOT know generation 2 introduced by its removal);
+   [c05_model_satisfies_spec_admit_remove_instance].  What the general theorem still needs (gap): invariants not yet in
+   [KInv] — secrecy for invite principals ([PI k]), "a live open invite leads to the current key", general completeness
+   of the executable [derives] for non-members (the predicate compares with [derives]), and the [rot_exact] clause over
+   observed member lists.  Proved: the tree parts ([c05_tree_model_satisfies_spec], [c05_open_model_satisfies_spec]);
+   computed instances: [c05_model_satisfies_spec_instance], [c05_model_satisfies_spec_admit_remove_instance]. *)
 From Coq Require Import List NArith Bool.
 Import ListNotations.
-From AnySync Require Import Model.Acl Model.AclKeys Proofs.AclKeysBase Proofs.AclKeysStep Proofs.AclKeysInv Proofs.AclKeysView Model.AclKeysTree Proofs.AclKeysTree.
+From AnySync Require Import Model.Acl Model.AclKeys Proofs.AclKeysBase Proofs.AclKeysStep Proofs.AclKeysInv Proofs.AclKeysView Model.AclKeysTree Proofs.AclKeysTree Proofs.AclKeysSpec.
 Open Scope N_scope.
 
 (* every honest history reaches a state satisfying the key invariant *)
@@ -193,19 +196,40 @@ Example c05_model_satisfies_spec_instance :
   spec_C05 1 1 steps = true /\ run_matches false (kinit 1 1 [1; 2; 3; 4]) steps = true.
 Proof. vm_compute. split; reflexivity. Qed.
 
-(* the unrestricted "model satisfies spec_C05" is false: one accepted, honest record that admits account 2 and removes
-   it again (with rotation); 2 derives generation 1 (delivered while it held a permission, between the two contents)
-   but holds no permission at any record boundary, which is all spec_C05 looks at *)
+(* the predicate as first written (record boundaries only) was stricter than the property: one accepted, honest record
+   that admits account 2 and removes it again (with rotation); 2 derives generation 1 (delivered while it held a
+   permission, between the two contents) but holds no permission at any record boundary *)
 Definition ex_rk_admit_remove : rkchange := mkRk true true [1] [].
 Definition ex_admit_remove : list hrec :=
   [(1, 2, [(CAccountsAdd [(2, 3)], KDeliver [Some 1]); (CAccountRemove [2] (Some ex_rk_admit_remove), KRot [Some 2] [] (Some 1))])].
-Example c05_model_satisfies_spec_refuted :
+Example c05_model_satisfies_spec_legacy_refuted :
   honest_run (kinit 1 1 [1; 2]) ex_admit_remove = true /\
   (let steps := model_steps (kinit 1 1 [1; 2]) [1; 2] ex_admit_remove in
-   map st_ok steps = [true] /\ run_matches false (kinit 1 1 [1; 2]) steps = true /\ spec_C05 1 1 steps = false) /\
+   map st_ok steps = [true] /\ run_matches false (kinit 1 1 [1; 2]) steps = true /\ spec_C05_legacy 1 1 steps = false) /\
   (let ms := run_hist (kinit 1 1 [1; 2]) ex_admit_remove in
    perm_of (m_s ms) 2 = 0 /\ derives (PA 2) (m_log ms) = [1] /\ keychanges (m_s ms) = [1; 2]).
 Proof. vm_compute. repeat split; reflexivity. Qed.
+
+(* the repaired predicate accepts the model's output on that record (2 may keep generation 1) and still refuses an
+   observation in which 2 also holds generation 2, the one its removal introduced *)
+Definition ex_leak_obs (st : step) : step :=
+  mkStep (st_author st) (st_id st) (st_cs st) (st_ok st) (st_cur st) (st_open st)
+         (map (fun o => if o_acct o =? 2 then mkAobs 2 (o_perm o) (Some [1; 2]) (Some [1; 2]) (o_right o) else o) (st_obs st)).
+Example c05_model_satisfies_spec_admit_remove_instance :
+  let steps := model_steps (kinit 1 1 [1; 2]) [1; 2] ex_admit_remove in
+  spec_C05 1 1 steps = true /\ spec_C05 1 1 (map ex_leak_obs steps) = false.
+Proof. vm_compute. split; reflexivity. Qed.
+
+(* PARTIAL.  Full statement (not proved, see the header for the gap):
+     forall owner root U h, honest_run (kinit owner root U) h = true ->
+       spec_C05 owner root (model_steps (kinit owner root U) U h) = true.
+   Proved part: the repaired predicate is implied by the legacy one on every step (it only ENLARGES the allowed sets,
+   by [admit_allow]), so everything the legacy predicate accepted — every observed history of every run so far — is
+   still accepted. *)
+Theorem c05_model_satisfies_spec_partial : forall owner root steps,
+  spec_C05_legacy owner root steps = true -> spec_C05 owner root steps = true.
+Proof. exact spec_legacy_implies_spec. Qed.
+Print Assumptions c05_model_satisfies_spec_partial.
 
 (* (5) long-lived OPEN trees across a membership history (Model/AclKeysTree.v; the symbolic model has no per-tree key
    cache: a change written under the ACL's current generation g is SEnc (treeKey (K g)) data labelled g) *)
